@@ -54,6 +54,12 @@ example : (tg sample { a := true, x := true }).isSome = true := by decide
 /-- and the mirror really prints it (one instance, a test): `a[\p{L}\p{Mn}\p{Nd}\p{Pc}]+|(?i:b.)` -/
 example : transpile sample {} = .ok (lit "a[\\p{L}\\p{Mn}\\p{Nd}\\p{Pc}]+|(?i:b.)") := by decide
 
+/-- Scope of a flag-only group is the ENCLOSING group (a test on one instance of the string mirror; flag-only groups are
+outside the proved fragment): in `(?i:(?a)\d)\d` the inner `\d` is ASCII, the one after the `)` is Unicode-aware again. -/
+example : transpile
+    (.concat (.cons (.group (.concat (.cons (.groupNoRegex [] { a := true } {} false) (.cons .digit .nil))) []
+      { i := true } {} false) (.cons .digit .nil))) {} = .ok (lit "(?i:\\d)\\p{Nd}") := by decide
+
 /-- `a # x|y\nb` as the Elk parser builds it: the comment text `x|y` has become an alternation. -/
 def xCommentTree : Node :=
   .union (.concat (.cons (.char 97) (.cons (.char 32) (.cons (.char 35) (.cons (.char 32) (.cons (.char 120) .nil))))))
